@@ -64,6 +64,20 @@ async def main():
             if t is not asyncio.current_task():
                 t.cancel()
         await asyncio.sleep(0)
+        # interests: an item may be liked AND hated in the settings; the server is told both
+        client = make_client(tmp)
+        told = []
+
+        async def record(*msgs):
+            told.extend(msgs)
+        client.network.send_server_messages = record
+        client.settings.interests.liked = {'jazz', 'metal'}
+        client.settings.interests.hated = {'metal', 'pop'}
+        await client.interests.advertise_interests()
+        liked = sorted(m.interest for m in told if isinstance(m, M.AddInterest.Request))
+        hated = sorted(m.hated_interest for m in told if isinstance(m, M.AddHatedInterest.Request))
+        if liked != ['jazz', 'metal'] or hated != ['metal', 'pop']:
+            return True, (f'settings liked={{jazz, metal}} hated={{metal, pop}}: the server was told liked {liked}, hated {hated}'), {'scenario': 'interests'}
         # a task cancelled while it closes a connection (the watchdog cancelling itself at CLOSING) ends cancelled, with the connection CLOSED
         client = make_client(tmp)
         sc = wire_connection(client.network.server_connection)
